@@ -28,12 +28,16 @@ pub mod h_pratt {
 pub mod h_drop {
     include!(concat!(env!("CHUMSKY_VERIF_DIR"), "/h_drop.rs"));
 }
+pub mod h_wrap {
+    include!(concat!(env!("CHUMSKY_VERIF_DIR"), "/h_wrap.rs"));
+}
 pub fn register_all(r: &mut Vec<(&'static str, fn())>) {
     h_comb::register(r);
     h_prim::register(r);
     h_comb2::register(r);
     h_iter::register(r);
     h_top::register(r);
+    h_wrap::register(r);
     h_drop::register(r);
     h_pratt::register(r);
     h_recover::register(r);
